@@ -72,13 +72,15 @@ def report_op(ctx: Ctx, rule: str, kind: str):
     return eng
 
 
-def global_mutations(ctx: Ctx, rule: str):
+def global_mutations(ctx: Ctx, rule: str, only_rel: str | None = None):
     """R09.b: no function on the load/generate path mutates process-global objects."""
     sm = ctx.sm
     allowed_calls = {"structlog.configure": "logging configuration in the CLI entry points (does not influence generated text)", "_structlog.configure": "logging configuration at import"}
     n = 0
     for f in sm.all_funcs():
         rel = f.rel
+        if only_rel is not None and not rel.endswith(only_rel):
+            continue
         mod = sm.modules[rel]
         module_names = set()
         for st in mod.body:
